@@ -284,7 +284,7 @@ func verif_C10_ops(kind, viewKind, op, R, C, zmask int) {
 		if n > 0 && m > 0 {
 			c.At(0, 0).SetFloat64(777)
 			VerifAssertEqF("Clone:independent", v.m.Float64At(0, 0), v.E[0][0])
-			x := VerifFinite64("w")
+			x := verifWriteVal(kind, "w")
 			v.m.At(n-1, m-1).SetFloat64(x)
 			if n > 1 || m > 1 {
 				VerifAssertEqF("Clone:independent-2", c.Float64At(n-1, m-1), v.E[n-1][m-1])
@@ -321,7 +321,7 @@ func verif_C10_ops(kind, viewKind, op, R, C, zmask int) {
 		VerifAssert("JointIterator:count", k == n*m)
 	case 17: // writes through single elements
 		if n > 0 && m > 0 {
-			x := VerifFinite64("w")
+			x := verifWriteVal(kind, "w")
 			v.m.At(n-1, 0).SetFloat64(x)
 			VerifAssertEqF("write-through", parent.Float64At(v.P[n-1][0][0], v.P[n-1][0][1]), x)
 			verifOutsideUnchanged("write-through", parent, E0, v)
@@ -366,4 +366,12 @@ func verif_C10_tip(kind, R, C int) {
 func init() {
 	VerifRegister("verif_C10_ops", func(a []int) { verif_C10_ops(a[0], a[1], a[2], a[3], a[4], a[5]) })
 	VerifRegister("verif_C10_tip", func(a []int) { verif_C10_tip(a[0], a[1], a[2]) })
+}
+
+// a value that the element type of kind represents exactly
+func verifWriteVal(kind int, name string) float64 {
+	if verifIs32(kind) {
+		return float64(VerifFinite32(name))
+	}
+	return VerifFinite64(name)
 }
